@@ -1379,13 +1379,19 @@ fn corpus_for<D: DKind>(kind: usize, out: &mut Vec<CorpusItem>) {
     if kind <= 1 {
         variants.push((!D::BINARY, true, 10)); // > 4 KB
     }
+    if D::BINARY {
+        // small binary files (few nodes, children skipping levels) for the exhaustive node-byte sweep
+        for _ in 0..6 {
+            variants.push((false, true, 3));
+        }
+    }
     for (ascii, v3, n) in variants {
         let order = rng.perm(n as usize);
         let names = names_for(if v3 { "plain" } else { "ctrl" }, n, &mut rng);
         let w = make_world::<D>(n, &order, &names, "corpus");
         let mut used = rng.perm(n as usize);
         used.truncate(n as usize - 1);
-        let k = if n == 10 { 4 } else { 3 };
+        let k = if n == 10 { 4 } else if n == 3 { 2 } else { 3 };
         let roots: Vec<(D::F, D::M)> = (0..k)
             .map(|_| {
                 let m = D::random_model(n, &used, &mut rng);
@@ -1924,6 +1930,33 @@ pub fn c15_malformed(ctx: &mut Ctx) {
             }
             ctx.count("truncations", 1);
             feed_kind(ctx, c.kind, &c.bytes[..cut], "truncation", &format!("t:{ci}:{cut} {}", c.label));
+        }
+    }
+    // exhaustive single-byte sweep of the node section of the small binary-mode files: every byte
+    // position x every value (the binary node encoding packs variable/child codes into single bytes,
+    // so one changed byte reaches every code combination: absolute/relative ids with offset 0, ...)
+    for (ci, c) in corp.iter().enumerate() {
+        let Some(hdr) = nodes_offset(&c.bytes) else { continue };
+        let is_binary = c.bytes.windows(7).any(|w| w == b".mode B");
+        if !is_binary || c.bytes.len() - hdr > ctx.by_tier(400, 4000) {
+            continue;
+        }
+        for pos in hdr..c.bytes.len() {
+            for val in 0..=255u8 {
+                if c.bytes[pos] == val {
+                    continue;
+                }
+                let mine = ctx.mine(item);
+                item += 1;
+                if !mine {
+                    continue;
+                }
+                let mut b = c.bytes.clone();
+                b[pos] = val;
+                ctx.count("files_mutated", 1);
+                ctx.count("mut_exhaustive-node-byte", 1);
+                feed_kind(ctx, c.kind, &b, "exhaustive-node-byte", &format!("x:{ci}:{pos}:{val} {}", c.label));
+            }
         }
     }
     // seeded mutations
